@@ -55,20 +55,6 @@ def capitalize (s : String) : String :=
   | [] => s
   | c :: rest => String.ofList (c.toUpper :: rest)
 
-/-- mirrors the generator's independent `screamingSnake` for names made of letters only -/
-def screamingSnake (s : String) : String :=
-  let cs := s.toList
-  let rec go (prev : Option Char) : List Char → List Char
-    | [] => []
-    | c :: rest =>
-      let next := rest.head?
-      let sep :=
-        match prev with
-        | none => false
-        | some p => c.isUpper && (p.isLower || (p.isUpper && (match next with | some n => n.isLower | none => false)))
-      (if sep then ['_'] else []) ++ [c.toUpper] ++ go (some c) rest
-  String.ofList (go none cs)
-
 /-- `f<0/1>/df<hex+hex..>/s<0/1>/ds<0/1>/q<0/1>/qi<hex>`: the whole token is the payload text, the
 `df` member is also decoded (the writer checks it for enum fields) -/
 def decodeLR (tok : String) : Option LRPayload :=
@@ -83,6 +69,9 @@ def decodeLR (tok : String) : Option LRPayload :=
 
 def showNamesList (l : List String) : String :=
   if l.isEmpty then "~" else String.intercalate "," (l.map hexStr)
+
+def screamingSnakeName (s : String) : String :=
+  J5V.Compile.Str.toString (J5V.Compile.toScreamingSnake (s.toList.map Char.toNat))
 
 def decodeSpec (num : Nat) (toks : List String) : Option Property := do
   let m ← parseKV toks
@@ -132,7 +121,8 @@ def decodeSpec (num : Nat) (toks : List String) : Option Property := do
       let epre ← optStr (m.get "epre")
       let inn ← strList (m.get "in"); let nin ← strList (m.get "nin")
       let tn := "E" ++ capitalize name
-      let decl : EnumDecl := { name := tn, declPrefix := epre, defaultPrefix := screamingSnake tn ++ "_", options := opts }
+      -- `strcase.ToScreamingSnake(name) + "_"` (strcase as modelled by J5V/Compile/Strcase.lean)
+      let decl : EnumDecl := { name := tn, declPrefix := epre, defaultPrefix := screamingSnakeName tn ++ "_", options := opts }
       pure (Schema.enum decl (if r then some { inn := inn, notIn := nin } else none) lr)
     | "obj" => pure (Schema.object "foo.v1.Bar" (m.get "flat" == "1") r)
     | "oneof" => pure (Schema.oneof "foo.v1.On" r lr)
@@ -493,7 +483,9 @@ def flatOfSchema : Schema → FlatRow
       emin := showExcl (rules.bind (·.exclusiveMinimum)), emax := showExcl (rules.bind (·.exclusiveMaximum)) }
   | .any od types lr => { kind := "any", od := b01 od, types := showNames types, lr := showLR lr }
 
-def showFlat (p : Property) : String :=
+/-- `pname` = the proto name of the compiled field (not part of the reflected schema; shown so
+that the correspondence also ties `proto name = snake(declared name)`) -/
+def showFlat (pname : String) (p : Property) : String :=
   let r := flatOfSchema p.schema.item
   let (arr, amin, amax, auniq, single) :=
     match p.schema with
@@ -505,7 +497,7 @@ def showFlat (p : Property) : String :=
       ("m", showOptNat (rules.bind (·.minPairs)), showOptNat (rules.bind (·.maxPairs)), "~", showOptHex sf)
   let desc := if p.description.isEmpty then "~" else hexStr p.description
   String.intercalate " " [
-    s!"name={hexStr p.name}", s!"num={p.number}", s!"req={b01 p.required}", s!"opt={b01 p.explicitlyOptional}", s!"desc={desc}",
+    s!"name={hexStr p.name}", s!"pname={hexStr pname}", s!"num={p.number}", s!"req={b01 p.required}", s!"opt={b01 p.explicitlyOptional}", s!"desc={desc}",
     s!"arr={arr}", s!"amin={amin}", s!"amax={amax}", s!"auniq={auniq}", s!"single={single}",
     s!"kind={r.kind}", s!"fmt={r.fmt}",
     s!"min={r.min}", s!"max={r.max}", s!"emin={r.emin}", s!"emax={r.emax}", s!"minl={r.minl}", s!"maxl={r.maxl}",
